@@ -404,7 +404,11 @@ func CheckC17(o *Outcome) *vh.Finding {
 		if has && (!anyValid || exp.Gen < firstValidGen) {
 			return vh.Fail("reload:failed-reload-had-effect", "%s: record %s carries the field added by the new configuration although no reload had succeeded by its generation (reloads: %s)", where, st, o.reloadSummary())
 		}
-		if !has && anyValid && exp.DialAt.After(firstValidEnd) {
+		isCls := exp.Kind == 0 && exp.Seq%3 == 0 // line() marks every third record of a stream with the kind "cls"
+		if has && !isCls {
+			return vh.Fail("reload:field-leaked-from-another-record", "%s: record %s does not have the kind that the new configuration's rule matches, but carries its field added=%q: a value of another record (the appended schema field is not cleared when a record object is recycled)", where, st, added)
+		}
+		if !has && isCls && anyValid && exp.DialAt.After(firstValidEnd) {
 			return vh.Fail("reload:new-config-not-in-effect", "%s: record %s was sent on a connection opened %v after a successful reload had returned, but was processed without the new configuration's transform (reloads: %s)", where, st, exp.DialAt.Sub(firstValidEnd), o.reloadSummary())
 		}
 		return nil
